@@ -421,8 +421,8 @@ pub fn run(args: &Args) {
 		skipped!(Rc<TSk>, 1, "Rc<transparent TSk(#[codec(skip)] DEl)>");
 		skipped!([TSk; 4], 4, "[transparent TSk(#[codec(skip)] DEl);4]");
 	}
-	// the known finding F6: transparent struct with two fields, in-place path, failure in the
-	// zero-sized second field after the first needed drop
+	// the repaired defect F6 (regression case): transparent struct with two fields through Box,
+	// failure in the zero-sized second field after the first has been built
 	{
 		#[derive(Default)]
 		struct ZFail;
